@@ -10,18 +10,33 @@ REDIR = {
 KF = "C02-unequal-head-heights"
 
 
+SHAPES = {
+    # fixed DAG families beyond the exhaustive bound (parents per commit)
+    "two-chains-3-2": "-|0|1|2|0|4",          # c0; A: c1<-c2<-c3; B: c4<-c5
+    "two-chains-2-2-merge": "-|0|1|0|3|2,4",    # two branches of length 2 joined by a merge commit
+    "diamond-tail": "-|0|0|1,2|3|1",            # diamond c3(c1,c2), tail c4, late fork c5 on c1
+    "three-branches": "-|0|1|0|0|4",            # heads of heights 3,2,3
+}
+
+
 def merge_jobs(tier, prop="C02"):
     js = []
     L = 3
     for kind, kn, n in ((1, "counter", 4), (0, "register", 3 if tier == "quick" else 4)):
         js.append({"id": f"deliver.{kn}.n{n}", "func": "VerifH_C02_Deliver",
-                   "conf": {"n": n, "kind": kind, "del": -1, "deliveries": L, "hasfield": 1, "class": 2},
+                   "conf": {"n": n, "kind": kind, "del": -1, "deliveries": L, "hasfield": 1, "class": 2, "dag": "", "orders": "all"},
                    "_obligation": "O1-O3", "_covers": ["delivered"], "unwind": 40, "_maporder_replay": True, "reset_mode": True})
     n = 3 if tier == "quick" else 4
     js.append({"id": f"deliver.counter.n{n}.delete-last", "func": "VerifH_C02_Deliver",
-               "conf": {"n": n, "kind": 1, "del": n - 1, "deliveries": L, "hasfield": 1, "class": 2},
+               "conf": {"n": n, "kind": 1, "del": n - 1, "deliveries": L, "hasfield": 1, "class": 2, "dag": "", "orders": "all"},
                "_obligation": "O1-O3", "_covers": ["delivered"], "unwind": 40, "_maporder_replay": True, "reset_mode": True})
-    js.append({"id": "twin", "func": "VerifH_C02_Reach", "conf": {}, "_obligation": "vacuity", "_expect": "twin", "_covers": ["end"]})
+    for sn, dag in SHAPES.items():
+        for kind, kn in ((1, "counter"),) if tier == "quick" else ((1, "counter"), (0, "register")):
+            js.append({"id": f"deliver.{kn}.{sn}", "func": "VerifH_C02_Deliver",
+                       "conf": {"n": 6, "kind": kind, "del": -1, "deliveries": 3 if tier == "quick" else 4, "hasfield": 1, "class": 2,
+                                "dag": dag, "orders": "two"},
+                       "_obligation": "O1-O3", "_covers": ["delivered"], "unwind": 60, "reset_mode": True})
+    js.append({"id": "twin", "func": "VerifH_C02_Reach", "conf": {"dag": "", "orders": "all"}, "_obligation": "vacuity", "_expect": "twin", "_covers": ["end"]})
     return js
 
 
